@@ -148,7 +148,9 @@ def run(tier):
         "V8 (node 20) as reference for the printed results"]
     chk.assumptions = ["compiler acceptance is a fact about the compilers in the image (gcc 12.2, clang 14, x86-64 LE); it is tested over the matrix, not proved",
                        "forced big-endian builds are C19's subject"]
-    pr = ec.prove_if_present(chk, ["C11", "C11Ops", "C04Ident"])      # C04Ident: the C symbol of every import is a C identifier (regenerated mangling rule)
+    # C04Ident: the C symbol of every import is a C identifier (regenerated mangling rule); C04Members: the instance struct declares the
+    # C symbol of every imported global / memory / table exactly once, also when an object is imported several times (regenerated member writers)
+    pr = ec.prove_if_present(chk, ["C11", "C11Ops", "C04Ident", "C04Members"], ec.GENS + [("Members", "gen_members")])
     broken = list(pr["errors"])
     n = {"quick": {"int": 40, "float": 40, "control": 60, "memory": 40},
          "thorough": {"int": 100, "float": 100, "control": 160, "memory": 100, "calls": 40, "init": 40}}[tier]
